@@ -31,7 +31,14 @@ _SUB = {}
 def sub(cls):
     """a user's subclass of a track class: still a track of the right kind"""
     if cls not in _SUB:
-        _SUB[cls] = type("My" + cls.__name__, (cls,), {"note": "user subclass"})
+        def valid_frames(self):
+            """the user's own notion of length: frames that hold data (the library defines no len() for tracks)"""
+            import blockrun as B
+            arr = getattr(self, "data", None)
+            arr = self.force if arr is None else arr
+            a = np.asarray(arr, dtype="f8")
+            return int(np.count_nonzero(~np.isnan(a.reshape(a.shape[0], -1)[:, 0]))) if a.shape[0] else 0
+        _SUB[cls] = type("My" + cls.__name__, (cls,), {"note": "user subclass", "__len__": valid_frames, "__bool__": lambda self: True})
     return _SUB[cls]
 
 
